@@ -77,6 +77,48 @@ theorem C09_other_topics_untouched (idx : AMap Topic Pos) (t t' : Topic) (l : Li
     unfold applyIdx at this
     rw [this, hx, AMap.get?_insert_ne _ _ _ _ hne]
 
+/-! ### AtLeastOnce: the persist counter (`should_persist`) -/
+
+/-- the counter stays below `persist_every` -/
+theorem C09_alo_counter_bounded (n : Nat) (info : ColInfo) (force : Bool) (h : info.readsSince < max n 1) :
+    (shouldPersist (.alo n) info force).1.readsSince < max n 1 := by
+  unfold shouldPersist
+  simp only
+  split
+  · simp only; omega
+  · split
+    · simp only; omega
+    · simp only; omega
+
+/-- `k` consecutive consuming `read_next` calls, seen by the counter: the flags say which of them persisted -/
+def persistFlags (n : Nat) : Nat → ColInfo → List Bool
+  | 0, _ => []
+  | k + 1, info => (shouldPersist (.alo n) info false).2 :: persistFlags n k (shouldPersist (.alo n) info false).1
+
+/-- **AtLeastOnce, redelivery bound (counter level).**  Among any `persist_every` consecutive consuming `read_next`
+calls at least one persists the position: so at most `persist_every - 1` delivered entries are ever ahead of the
+durable position, and a restart redelivers at most that many entries of `read_next`. -/
+theorem C09_alo_persists_every_n_reads (n : Nat) (info : ColInfo) (h : info.readsSince < max n 1) :
+    true ∈ persistFlags n (max n 1 - info.readsSince) info := by
+  generalize hk : max n 1 - info.readsSince = k
+  induction k generalizing info with
+  | zero => omega
+  | succ k ih =>
+    unfold persistFlags
+    by_cases hp : info.readsSince + 1 ≥ max n 1
+    · have : (shouldPersist (.alo n) info false).2 = true := by
+        unfold shouldPersist; simp [hp]
+      rw [this]; exact List.mem_cons_self
+    · have hs : (shouldPersist (.alo n) info false).1.readsSince = info.readsSince + 1 := by
+        unfold shouldPersist; simp [hp]
+      apply List.mem_cons_of_mem
+      apply ih
+      · rw [hs]; omega
+      · rw [hs]; omega
+
+/-- with `persist_every = 3`: the third read persists -/
+example : persistFlags 3 3 {} = [false, false, true] := by decide
+
 /-! Non-vacuity: a consuming `read_next` killed before the rename of its (only) persist; after the
 restart the entry is delivered again — the read in flight went "not happened" (small geometry). -/
 example : Eng.run smallCfg
